@@ -187,13 +187,13 @@ _KERN = {k.lower(): v for k, v in G.KERNELS.items()}
 
 def roles_of(kern):
     """roles string of a kernel name as written in the invoke: F written
-    field, f read field, r real scalar, R written real scalar, i integer"""
+    field, f read field, r real scalar, R written real scalar, i integer
+    scalar, e stencil extent (integer) of the preceding field"""
     k = kern.lower()
     if k in _BI_ROLES:
         return _BI_ROLES[k]
     if k in _KERN:
-        return "".join((r.upper() if (r == "f" and acc != "read") else r)
-                       for r, acc in _KERN[k]["args"])
+        return _KERN[k]["roles"]
     raise TextError("unknown kernel %r" % kern)
 
 
@@ -201,12 +201,13 @@ class State:
     """program variables: fields (lists of Fractions over the compared DoF
     range), real and integer scalars, index variables"""
 
-    def __init__(self, fields, reals, ints_, index, mult_w0):
+    def __init__(self, fields, reals, ints_, index, mult_w0, ssz=None):
         self.fields = fields        # designator -> list
         self.reals = reals
         self.ints = ints_
         self.index = index          # idx / i1 / i2 -> int
         self.mult_w0 = mult_w0      # list of ints over the compared range
+        self.ssz = ssz or {}        # extent -> per-DoF CROSS stencil size
         self.written = set()
 
     def value(self, res, want):
@@ -214,7 +215,7 @@ class State:
         if res[0] == "lit":
             if want == "r" and res[2] != "real":
                 raise TextError("integer literal where a real is expected")
-            if want == "i" and res[2] != "integer":
+            if want in "ie" and res[2] != "integer":
                 raise TextError("real literal where an integer is expected")
             return Fraction(res[1])
         d = res[1]
@@ -289,6 +290,13 @@ def run_invoke(state, text, nred):
             for d in range(n):
                 for _ in range(state.mult_w0[d]):
                     out[d] = _add(_add(val(0, d), val(1, d)), val(2, d))
+        elif k == "c24_sten_w3_type":
+            ext = int(val(2, 0))
+            if ext not in state.ssz:
+                raise TextError("no stencil sizes for extent %r" % ext)
+            sz = state.ssz[ext]
+            for d in range(n):
+                out[d] = _add(val(1, d), _chk(8 * sz[d] + int(val(3, d))))
         else:
             raise TextError("no semantics for kernel %r" % k)
     return inv
@@ -323,7 +331,10 @@ def psy_routines(psy_text):
             cur = {"dummies": [a.strip().lower()
                                for a in _split_top(m.group(2) or "")
                                if a.strip()],
-                   "decl": {}, "body": []}
+                   "decl": {}, "body": [], "copies": 1}
+            if m.group(1).lower() in res:
+                # two routines of one name: remember how many
+                cur["copies"] = res[m.group(1).lower()]["copies"] + 1
             res[m.group(1).lower()] = cur
             continue
         if re.match(r"(?i)^end\s+subroutine", ln):
@@ -367,6 +378,9 @@ def _class_of_actual(txt, ints):
         return "real", r
     if d in G.INTS:
         return "integer", r
+    if any(x.startswith(d + "(") for x in list(G.SPACE_OF) + list(G.REALS)
+           + list(G.INTS)):
+        return "whole_array", r
     return "unknown", r
 
 
@@ -379,6 +393,13 @@ def static_check(invoke_text, ints, call, routine):
     stats = {"actuals": len(call[1]), "kernel_args_mapped": 0}
     dummies = routine["dummies"]
     actuals = call[1]
+    if len(set(dummies)) != len(dummies):
+        dup = sorted({d for d in dummies if dummies.count(d) > 1})
+        problems.append(("psy_routine_declares_an_argument_twice",
+                         "SUBROUTINE %s(%s): dummy argument(s) %s appear "
+                         "more than once" % (call[0], ", ".join(dummies),
+                                             ", ".join(dup))))
+        return problems, stats
     if len(dummies) != len(actuals):
         problems.append(("alg_call_and_psy_routine_differ_in_argument_count",
                          "call %s passes %d arguments, the routine declares "
@@ -397,8 +418,17 @@ def static_check(invoke_text, ints, call, routine):
         dcl = routine["decl"].get(d)
         if cls == "unknown":
             problems.append(("alg_call_passes_unknown_variable",
-                             "actual argument %r of %s is not a program "
-                             "variable" % (a.strip(), call[0])))
+                             "actual argument %r of the generated call %s(%s)"
+                             " is not a variable of the program" % (
+                                 a.strip(), call[0], ", ".join(
+                                     x.strip() for x in actuals))))
+            continue
+        if cls == "whole_array":
+            problems.append(("alg_call_passes_whole_array_for_element",
+                             "actual argument %r of the generated call %s(%s)"
+                             " is a whole array; dummy %r is declared %s" % (
+                                 a.strip(), call[0], ", ".join(
+                                     x.strip() for x in actuals), d, dcl)))
             continue
         if dcl != cls:
             problems.append(("alg_call_and_psy_routine_differ_in_type",
@@ -410,7 +440,20 @@ def static_check(invoke_text, ints, call, routine):
     # ---- data flow: proxies and data pointers of the routine
     proxy_of = {}      # proxy name -> dummy
     data_of = {}       # data pointer name -> dummy
+    sten_extent = {}   # stencil map name -> extent token
+    sten_size_of = {}  # stencil size pointer -> stencil map name
     for ln in routine["body"]:
+        m = re.match(r"(?i)^([a-z0-9_]+)\s*=>\s*[a-z0-9_]+\s*%\s*vspace\s*%"
+                     r"\s*get_stencil_dofmap\s*\(\s*[a-z0-9_]+\s*,(.*)\)$",
+                     ln)
+        if m:
+            sten_extent[m.group(1).lower()] = m.group(2).strip()
+            continue
+        m = re.match(r"(?i)^([a-z0-9_]+)\s*=>\s*([a-z0-9_]+)\s*%\s*"
+                     r"get_stencil_sizes\s*\(\s*\)$", ln)
+        if m:
+            sten_size_of[m.group(1).lower()] = m.group(2).lower()
+            continue
         m = re.match(r"(?i)^([a-z0-9_]+)\s*=\s*([a-z0-9_]+)\s*%\s*get_proxy"
                      r"\s*\(\s*\)$", ln)
         if m:
@@ -472,15 +515,28 @@ def static_check(invoke_text, ints, call, routine):
                                  "routine calls %s where the invoke has %s"
                                  % (ev[1], kc["kern"])))
                 continue
-            got = [designate(t) for t in ev[2][1:1 + len(roles)]]
+            got, shown = [], []
+            pos = 1
+            for r in roles:
+                if r == "e":
+                    # <size>(cell), <dofmap>(:,:,cell) follow the field
+                    sname = re.sub(r"\(.*$", "", ev[2][pos].strip()).lower()
+                    tok = sten_extent.get(sten_size_of.get(sname, ""), "")
+                    got.append(designate(tok) if tok else None)
+                    shown.append("%s [extent %s]" % (sname, tok))
+                    pos += 2
+                else:
+                    got.append(designate(ev[2][pos]))
+                    shown.append(ev[2][pos].strip())
+                    pos += 1
             for p, (g, w) in enumerate(zip(got, want)):
                 stats["kernel_args_mapped"] += 1
                 if g != w:
                     problems.append((
                         "psy_kernel_argument_maps_to_wrong_program_variable",
-                        "argument %d of %s: PSy layer passes %r which is "
+                        "argument %d of %s: PSy layer uses %r which is "
                         "bound to %s; the invoke text has %r = %s" % (
-                            p + 1, kc["kern"], ev[2][1 + p].strip(), g,
+                            p + 1, kc["kern"], shown[p], g,
                             kc["args"][p].strip(), w)))
         else:
             if ev[1] != kc["kern"].lower():
